@@ -6,6 +6,7 @@ import (
 	"bytes"
 	"encoding/json"
 	"fmt"
+	"math/rand"
 	"os"
 	"os/exec"
 	"path/filepath"
@@ -22,6 +23,7 @@ type cliLine struct {
 	Exit    int                 `json:"exit"`
 	Out     json.RawMessage     `json:"out"`
 	Some    bool                `json:"some"`
+	LibDef  bool                `json:"libdefined"`
 	Patches [][]json.RawMessage `json:"patches"`
 }
 
@@ -34,12 +36,27 @@ func (e *engine) checkCliLine(worker int, raw []byte) error {
 	if cli == "" {
 		return fmt.Errorf("no cli binary given (-opt cli=...)")
 	}
-	stdin, err := jsonread.FromWire(ln.Stdin)
-	if err != nil {
-		return err
+	var docText []byte
+	if bytes.Contains(ln.Stdin, []byte(`"malformed"`)) {
+		docText = []byte(`{"a": [1, 2`)
+	} else {
+		stdin, err := jsonread.FromWire(ln.Stdin)
+		if err != nil {
+			return err
+		}
+		// half of the scenarios give the document in a spelling with insignificant white space
+		if hashSeed(raw, e.seed)&64 != 0 {
+			docText = jsonread.Spelling{Rnd: rand.New(rand.NewSource(hashSeed(raw, e.seed))), WsOnly: true}.RenderDoc(stdin)
+		} else {
+			docText = jsonread.Canonical.Render(stdin)
+		}
 	}
 	e.rep.Count("transitions", 1)
-	e.rep.Label(fmt.Sprintf("Cli_exit%d_files%d", ln.Exit, len(ln.Files)))
+	if ln.LibDef {
+		e.rep.Label(fmt.Sprintf("Cli_libdefined_files%d", len(ln.Files)))
+	} else {
+		e.rep.Label(fmt.Sprintf("Cli_exit%d_files%d", ln.Exit, len(ln.Files)))
+	}
 	dir, err := os.MkdirTemp(e.extra["tmp"], "cli")
 	if err != nil {
 		return err
@@ -79,7 +96,6 @@ func (e *engine) checkCliLine(worker int, raw []byte) error {
 			args = append(args, "-p"+path)
 		}
 	}
-	docText := jsonread.Canonical.Render(stdin)
 	cmd := exec.Command(cli, args...)
 	cmd.Stdin = bytes.NewReader(docText)
 	var so, se bytes.Buffer
@@ -99,6 +115,28 @@ func (e *engine) checkCliLine(worker int, raw []byte) error {
 			Sig: map[string]string{"fam": "cli", "kind": kind, "lab": "", "lastop": ""},
 			Case: map[string]interface{}{"fam": "cli", "files": ln.Files, "stdin": string(docText), "patch_texts": texts(patchTexts),
 				"spec_exit": ln.Exit, "exit": code, "stdout": so.String(), "stderr": se.String(), "line": ln}}
+	}
+	// the library's own fold, in process: decode each file, apply one after the other
+	foldOK, foldOut := true, docText
+	for _, pt := range patchTexts {
+		out, aerr, derr := lib.ApplyDefaults(foldOut, pt, 0, true)
+		if aerr != nil || derr != nil {
+			foldOK = false
+			break
+		}
+		foldOut = out
+	}
+	if ln.LibDef {
+		// outside the domain of the operation semantics: C20 defines the expectation by the library itself
+		if (code == 0) != foldOK {
+			e.rep.Report(viol("exit", fmt.Sprintf("exit status %d, but applying the patches one after another with the library %s", code, map[bool]string{true: "succeeds", false: "fails"}[foldOK])))
+		} else if code == 0 && !bytes.Equal(foldOut, so.Bytes()) {
+			e.rep.Report(viol("bytes", fmt.Sprintf("standard output differs from the library's own result %q", foldOut)))
+		} else if code != 0 && (so.Len() != 0 || se.Len() == 0) {
+			e.rep.Report(viol("partial-output", "the command failed but wrote to standard output, or reported nothing on standard error"))
+		}
+		e.rep.Nontrivial(fmt.Sprint(ln.Files) + string(ln.Stdin))
+		return nil
 	}
 	if (code == 0) != (ln.Exit == 0) {
 		e.rep.Report(viol("exit", fmt.Sprintf("exit status %d, the specification expects %d", code, ln.Exit)))
@@ -122,16 +160,11 @@ func (e *engine) checkCliLine(worker int, raw []byte) error {
 			return nil
 		}
 		// exactly what the library produces when the patches are applied one after another
-		cur := docText
-		for _, pt := range patchTexts {
-			out, aerr, derr := lib.ApplyDefaults(cur, pt, 0, true)
-			if aerr != nil || derr != nil {
-				return fmt.Errorf("in-process fold failed where the command succeeded: %v %v", aerr, derr)
-			}
-			cur = out
+		if !foldOK {
+			return fmt.Errorf("in-process fold failed where the command and the specification succeed")
 		}
-		if !bytes.Equal(cur, so.Bytes()) {
-			e.rep.Report(viol("bytes", fmt.Sprintf("standard output differs from the library's own result %q", cur)))
+		if !bytes.Equal(foldOut, so.Bytes()) {
+			e.rep.Report(viol("bytes", fmt.Sprintf("standard output differs from the library's own result %q", foldOut)))
 		}
 	}
 	e.rep.Nontrivial(fmt.Sprint(ln.Files) + string(ln.Stdin))
